@@ -1,5 +1,10 @@
+#[cfg(nucleo_verif)]
+use crate::verif::atomic::{self, AtomicBool};
 use std::cell::UnsafeCell;
 use std::mem::take;
+#[cfg(nucleo_verif)]
+use std::sync::atomic::AtomicU32;
+#[cfg(not(nucleo_verif))]
 use std::sync::atomic::{self, AtomicBool, AtomicU32};
 use std::sync::Arc;
 
@@ -17,6 +22,12 @@ impl Matchers {
     // this is not a true mut from ref, we use a cell here
     #[allow(clippy::mut_from_ref)]
     unsafe fn get(&self) -> &mut nucleo_matcher::Matcher {
+        #[cfg(nucleo_verif)]
+        crate::verif::hit(
+            "matcher.use",
+            self.0[rayon::current_thread_index().unwrap()].get() as usize,
+            [rayon::current_thread_index().unwrap() as u64, 0, 0, 0],
+        );
         &mut *self.0[rayon::current_thread_index().unwrap()].get()
     }
 }
@@ -99,6 +110,12 @@ impl<T: Sync + Send + 'static> Worker<T> {
             let end = new_snapshot.end();
             let in_flight = Mutex::new(&mut self.in_flight);
             let items = new_snapshot.map(|(idx, item)| {
+                #[cfg(nucleo_verif)]
+                crate::verif::hit(
+                    "run.scan_item",
+                    0,
+                    [idx as u64, item.is_some() as u64, 0, 0],
+                );
                 let Some(item) = item else {
                     in_flight.lock().push(idx);
                     unmatched.fetch_add(1, atomic::Ordering::Relaxed);
@@ -119,6 +136,8 @@ impl<T: Sync + Send + 'static> Worker<T> {
                 };
                 Match { score, idx }
             });
+            #[cfg(nucleo_verif)]
+            let _verif_blocking = crate::verif::Blocking::new("par.scan");
             self.matches.par_extend(items);
             self.last_snapshot = end;
         }
@@ -129,6 +148,12 @@ impl<T: Sync + Send + 'static> Worker<T> {
         self.in_flight.retain(|&i| {
             let is_in_flight = self.items.get(i).is_none();
             if is_in_flight {
+                #[cfg(nucleo_verif)]
+                crate::verif::hit(
+                    "run.remove_in_flight",
+                    0,
+                    [i as u64, off as u64, self.matches.len() as u64, 0],
+                );
                 self.matches.remove((i - off) as usize);
                 off += 1;
             }
@@ -155,6 +180,17 @@ impl<T: Sync + Send + 'static> Worker<T> {
     pub(crate) unsafe fn run(&mut self, pattern_status: pattern::Status, cleared: bool) {
         self.running = true;
         self.was_canceled = false;
+        #[cfg(nucleo_verif)]
+        crate::verif::hit(
+            "run.begin",
+            0,
+            [
+                pattern_status as u64,
+                cleared as u64,
+                self.last_snapshot as u64,
+                self.in_flight.len() as u64,
+            ],
+        );
 
         if cleared {
             self.last_snapshot = 0;
@@ -166,9 +202,31 @@ impl<T: Sync + Send + 'static> Worker<T> {
         if self.pattern.is_empty() {
             self.reset_matches();
             self.process_new_items_trivial();
+            #[cfg(nucleo_verif)]
+            crate::verif::hit(
+                "run.notify_check",
+                0,
+                [
+                    1,
+                    self.last_snapshot as u64,
+                    self.in_flight.len() as u64,
+                    self.matches.len() as u64,
+                ],
+            );
             if self.should_notify.load(atomic::Ordering::Relaxed) {
                 (self.notify)();
             }
+            #[cfg(nucleo_verif)]
+            crate::verif::hit(
+                "run.end",
+                0,
+                [
+                    0,
+                    self.last_snapshot as u64,
+                    self.in_flight.len() as u64,
+                    self.matches.len() as u64,
+                ],
+            );
             return;
         }
 
@@ -181,6 +239,8 @@ impl<T: Sync + Send + 'static> Worker<T> {
             self.process_new_items_trivial();
             let matchers = &self.matchers;
             let pattern = &self.pattern;
+            #[cfg(nucleo_verif)]
+            let _verif_blocking = crate::verif::Blocking::new("par.rescore");
             self.matches
                 .par_iter_mut()
                 .take_any_while(|_| !self.canceled.load(atomic::Ordering::Relaxed))
@@ -190,6 +250,8 @@ impl<T: Sync + Send + 'static> Worker<T> {
                         unmatched.fetch_add(1, atomic::Ordering::Relaxed);
                         return;
                     }
+                    #[cfg(nucleo_verif)]
+                    crate::verif::hit("run.rescore_item", 0, [match_.idx as u64, 0, 0, 0]);
                     // safety: in-flight items are never added to the matches
                     let item = self.items.get_unchecked(match_.idx);
                     if let Some(score) = pattern.score(item.matcher_columns, matchers.get()) {
@@ -204,6 +266,10 @@ impl<T: Sync + Send + 'static> Worker<T> {
             self.process_new_items(&unmatched);
         }
 
+        #[cfg(nucleo_verif)]
+        crate::verif::hit("run.sort_begin", 0, [self.matches.len() as u64, 0, 0, 0]);
+        #[cfg(nucleo_verif)]
+        let verif_sort_blocking = crate::verif::Blocking::new("par.sort");
         let canceled = par_quicksort(
             &mut self.matches,
             |match1, match2| {
@@ -239,16 +305,51 @@ impl<T: Sync + Send + 'static> Worker<T> {
             },
             &self.canceled,
         );
+        #[cfg(nucleo_verif)]
+        drop(verif_sort_blocking);
+        #[cfg(nucleo_verif)]
+        crate::verif::hit(
+            "run.sort_end",
+            0,
+            [
+                canceled as u64,
+                self.matches.len() as u64,
+                *unmatched.get_mut() as u64,
+                0,
+            ],
+        );
 
         if canceled {
             self.was_canceled = true;
         } else {
             self.matches
                 .truncate(self.matches.len() - take(unmatched.get_mut()) as usize);
+            #[cfg(nucleo_verif)]
+            crate::verif::hit(
+                "run.notify_check",
+                0,
+                [
+                    0,
+                    self.last_snapshot as u64,
+                    self.in_flight.len() as u64,
+                    self.matches.len() as u64,
+                ],
+            );
             if self.should_notify.load(atomic::Ordering::Relaxed) {
                 (self.notify)();
             }
         }
+        #[cfg(nucleo_verif)]
+        crate::verif::hit(
+            "run.end",
+            0,
+            [
+                self.was_canceled as u64,
+                self.last_snapshot as u64,
+                self.in_flight.len() as u64,
+                self.matches.len() as u64,
+            ],
+        );
     }
 
     fn reset_matches(&mut self) {
